@@ -24,6 +24,7 @@ claims = {
  "C09": ("model_checking", "goroutine schedules as engine choices (delay-bounded round-robin scheduler) over the real Future, All/Race/Any, evaluateAsyncExpr/ExecuteRoute and compiled OpAsync/OpAwait code with symbolic values; on every explored schedule a happens-before monitor checks all conflicting accesses, the result is compared with the schedule-independent expected value, and compiled async blocks are compared with the interpreter", "section 4 C09"),
  "C16": ("model_checking", "the real Hub.Run loop, RoomManager, Room and Connection code driven by operation histories (engine choices over configuration, operation, connection, room) against a membership model checked after every step, and by racing actors under delay-bounded schedule exploration with a happens-before monitor; crashes (send on closed channel), deadlocks (all goroutines blocked) and view disagreements are the violations", "section 4 C16"),
  "C08": ("model_checking", "two goroutines running the real ExecuteRoute on one long-lived interpreter (programs parsed from source, mock database attached) under delay-bounded schedule exploration: a happens-before monitor checks every pair of conflicting accesses on every explored schedule and each reply is compared with the reply the request gets alone", "section 4 C08"),
+ "C01": ("model_checking", "the real interpreter (ExecuteRoute, EvaluateExpression, executor, builtins) and the real lexer/parser on symbolic-leaf expressions, operator token pairs and statement templates against reference results written from the language specification; for all operand values within the bounds z3 decides whether the interpreter's outcome can differ from the documented one; object iteration under every Go map order", "section 4 C01"),
  "C10": ("model_checking", "symbolic byte buffers through the real bytecode loader and VM (step limit, allocation bound and termination as implicit assertions) and symbolic source bytes through the real lexer and parser", "section 4 C10"),
 }
 NA_REASON = {}
